@@ -3,6 +3,7 @@ import Driver.Extra
 import Rbacx.Spec.Combining
 import Rbacx.Spec.Operators
 import Rbacx.Spec.DenyByDefault
+import Rbacx.Spec.Engine
 /-
   Driver.Main — one JSON command per input line, one JSON answer per output line.
 -/
@@ -105,7 +106,13 @@ def handle (j : Json) : Except String Json := do
         match Spec.c01 o cfg pol req (fieldBool impl "allowed") (fieldStr impl "effect") obls.asList with
         | some b => .bool b
         | none => .null
-      pure (Json.mkObj [("model", model), ("spec_c01", c01)])
+      let optB : Option Bool → Json := fun x => match x with | some b => .bool b | none => .null
+      let rid ← fieldVal impl "rule_id"
+      let pid ← fieldVal impl "policy_id"
+      let reason := match field impl "reason" with | .str s => s | _ => "<null>"
+      let c03 := Spec.c03 o cfg pol req (fieldStr impl "effect") reason
+      let c11 := Spec.c11 o cfg pol req (fieldBool impl "allowed") (fieldStr impl "effect") rid pid reason obls.asList
+      pure (Json.mkObj [("model", model), ("spec_c01", c01), ("spec_c03", optB c03), ("spec_c11", optB c11)])
   | "eval-policy" => do
     let pol ← fieldVal j "policy"
     let env ← fieldVal j "env"
